@@ -554,7 +554,19 @@ func (p *proxyObject) proxyGetOwnPropertyDescriptor(targetProp Value, target *Ob
 		resultDesc.Enumerable == FLAG_TRUE {
 		return resultDesc.Value
 	}
-	return r.toValueProp(trapResultObj)
+	ret := &valueProperty{
+		writable:     resultDesc.Writable == FLAG_TRUE,
+		enumerable:   resultDesc.Enumerable == FLAG_TRUE,
+		configurable: resultDesc.Configurable == FLAG_TRUE,
+	}
+	if resultDesc.IsAccessor() {
+		ret.accessor = true
+		ret.getterFunc, _ = resultDesc.Getter.(*Object)
+		ret.setterFunc, _ = resultDesc.Setter.(*Object)
+	} else {
+		ret.value = resultDesc.Value
+	}
+	return ret
 }
 
 func (p *proxyObject) getOwnPropStr(name unistring.String) Value {
